@@ -3,7 +3,7 @@
 TRUSTED_BASE = [
     "Kani 0.68.0 MIR->GOTO translation and its models of intrinsics, atomics (sequential) and std::process::abort",
     "CBMC 6.11.0 + CaDiCaL",
-    "ghost allocator stubs replacing alloc::alloc::{alloc,dealloc,dealloc_nonnull} (presence checked via '- Stub:' lines)",
+    "ghost allocator stubs replacing alloc::alloc::{alloc,dealloc,dealloc_nonnull,realloc,realloc_nonnull,alloc_zeroed} (every obligation ends in a cover that is reachable only if the alloc stub ran)",
     "rustc front end of Kani's pinned nightly toolchain",
     "Verus 0.2026.09.13 / Z3 for the lemma files (layout_extracted.rs: statements verbatim from /repo/src/arc.rs; spec_forms.rs: the closed forms of harness/vrt.rs verbatim; history_lemma.rs: generated from contracts/ops.toml); assume_specification of core::alloc::Layout API",
     "third-party crates serde, stable_deref_trait, unsize, arc-swap executed as is",
